@@ -223,6 +223,13 @@ class IdentityToken(object):
 
 
 IDENTITY_TOKENS = [IdentityToken("i%d" % i) for i in range(4)]
+
+
+def clone(x):
+    """The harness's own deep copy of IR material: identity-compared internal values stay the objects they are."""
+    import copy
+
+    return copy.deepcopy(x, dict((id(t), t) for t in IDENTITY_TOKENS))
 VANISH = "value the serialiser maps to null"
 HOSTILE_ARGUMENT_NAMES = ["func", "self", "fn", "func", "self", "fn", "func", "self", "args", "kwargs", "cls", "key", "value", "node", "nodes", "default",
                           "type", "name", "resolver", "executor", "runtime", "then", "else_", "path", "field"]
